@@ -162,7 +162,6 @@ class ACEProcess(interface.Processor):
         self,
         termini: Optional[List[Pattern[str]]] = None
     ) -> List[str]:
-        poll = self._p.poll
         assert self._p.stdout is not None, 'cannot receive output from ACE'
         next_line = self._p.stdout.readline
 
@@ -174,7 +173,7 @@ class ACEProcess(interface.Processor):
         lines = []
         while i < end:
             s = next_line()
-            if s == '' and poll() is not None:
+            if s == '':  # end of file (a blank line would be '\n')
                 logger.info(
                     'Process closed unexpectedly; giving up.'
                 )
